@@ -54,8 +54,17 @@ def provision_frappy():
         mod = sys.modules.get(name)
         if mod is not None and hasattr(mod, 'get_version'):
             mod.get_version = get_version
-    d = scratch_dir()
-    frappy.lib.generalConfig.testinit(logdir=d + '/log', piddir=d + '/pid', confdir=[d + '/cfg'])
+    set_config()
+
+
+def set_config(**kwds):
+    """(re)initialise frappy's general configuration for this process (scratch directories + kwds)"""
+    import frappy.lib
+    from pathlib import Path
+    d = Path(scratch_dir())
+    cfg = {'logdir': d / 'log', 'piddir': d / 'pid', 'confdir': [d / 'cfg']}
+    cfg.update(kwds)
+    frappy.lib.generalConfig.testinit(**cfg)
 
 
 def fix_version():
